@@ -10,6 +10,7 @@ emitted (no skip_all; `parent`/`follows_from` are written BEFORE `target`, becau
 `parent = ..`/`follows_from = ..` once a target has been seen).
 """
 import random
+import re
 import sys
 import os
 
@@ -302,6 +303,12 @@ def gen_twin(rng, N, CK):
         follows_form = rng.choice(["ids", "span_arr"])
         kinds.append("causes_ids" if follows_form == "ids" else "cause_span")
     params = [mk_param(k, i, sl, lt, send) for i, k in enumerate(kinds)]
+    # boxed methods taking the receiver by reference, all other parameters plain identifiers:
+    # written in the shape async-trait <= 0.1.43 expanded to (`async fn inner(_self: &T, ..)` called
+    # inside Box::pin) - the one place where the name the user writes (`self`) and the identifier
+    # the parameter is bound to (`_self`) differ.  Decided from N only.
+    plain_params = all(p.decl_name and p.pat in (p.decl_name, "mut " + p.decl_name) for p in params)
+    inner_recv = kind == "boxed" and recv in ("&self", "&mut self") and plain_params and parent_form != "self_span"
 
     binds = []
     recv_store = []
@@ -390,6 +397,8 @@ def gen_twin(rng, N, CK):
         for b in binds:
             if rng.random() < 0.4:
                 skips.add(b.name)
+    if inner_recv and (int(N) * 48271 >> 2) % 2 == 0:
+        skips.add("self")
     if skips:
         feats["skip"] = "some" if len(skips) < len(binds) else "all"
 
@@ -693,10 +702,10 @@ def gen_twin(rng, N, CK):
     # a third of the boxed twins without receiver whose parameters are plain identifiers use the
     # inner-async-fn shape
     inner_fn = (kind == "boxed" and not recv and all(p.decl_name and p.pat in (p.decl_name, "mut " + p.decl_name) for p in params)
-                and (int(N) * 40503 >> 3) % 3 == 0)
+                and (int(N) * 40503 >> 3) % 3 == 0) or inner_recv
     if inner_fn:
         box_pin = "Box::pin"
-        bfeats.add("boxed_inner_async_fn")
+        bfeats.add("boxed_inner_async_fn" + ("(_self)" if inner_recv else ""))
     if kind == "boxed":
         bfeats.add("boxpin:" + box_pin)
 
@@ -712,9 +721,13 @@ def gen_twin(rng, N, CK):
             # the shape older async-trait versions expanded to (and a common hand-written way to
             # get an object-safe async method): an inner `async fn` called inside Box::pin
             s = " + Send" if send else ""
-            iargs = ", ".join(p.decl_name for p in params)
+            iargs = ", ".join((["self"] if inner_recv else []) + [p.decl_name for p in params])
+            iptxt, ibody = ptxt, body_txt
+            if inner_recv:
+                iptxt = ", ".join([f"_self: &{lt}{'mut ' if recv == '&mut self' else ''}Obj"] + plist[1:])
+                ibody = re.sub(r"\bself\b", "_self", body_txt)
             return (f"{allow}{a}    {vis}fn {name}{gtxt}({ptxt}) -> Pin<Box<dyn Future<Output = {ret_ty}>{s} + 'a>> {{\n"
-                    f"        {allow}        async fn {name}_inner{gtxt}({ptxt}) -> {ret_ty} {{\n        {body_txt}\n        }}\n"
+                    f"        {allow}        async fn {name}_inner{gtxt}({iptxt}) -> {ret_ty} {{\n        {ibody}\n        }}\n"
                     f"        {pre_txt}\n        Box::pin({name}_inner({iargs}))\n    }}\n")
         if kind == "boxed":
             s = " + Send" if send else ""
